@@ -81,3 +81,109 @@ def finite_language(pattern, flags=0, limit=5000):
     if flags & re.I:
         words = {w.upper() for w in words}
     return words
+
+
+# ------------------------------------------------------------------------------------------------
+# prefix viability: can `prefix` be extended to a string that the pattern matches (re.match semantics)?
+# ------------------------------------------------------------------------------------------------
+def viable_prefix(pattern, flags, prefix):
+    """True if some string starting with `prefix` is matched by re.match(pattern): a continuation-passing matcher over
+    the sre parse tree that answers True as soon as the input is exhausted inside the pattern.  Look-arounds and
+    back-references are over-approximated as satisfiable."""
+    try:
+        tree = sre_parse.parse(pattern, flags)
+    except re.error:
+        return None
+    ci = bool(flags & re.I)
+    text = prefix.lower() if ci else prefix
+    n = len(text)
+    budget = [200000]
+
+    def cat(code, ch):
+        name = str(code)
+        if "DIGIT" in name:
+            r = ch.isdigit()
+        elif "SPACE" in name:
+            r = ch.isspace()
+        elif "WORD" in name:
+            r = ch.isalnum() or ch == "_"
+        else:
+            return True
+        return (not r) if "NOT" in name else r
+
+    def in_set(av, ch):
+        neg = False
+        hit = False
+        for o, a in av:
+            if o == sre_c.NEGATE:
+                neg = True
+            elif o == sre_c.LITERAL:
+                c = chr(a)
+                if (c.lower() if ci else c) == ch:
+                    hit = True
+            elif o == sre_c.RANGE:
+                lo, hi = a
+                if lo <= ord(ch) <= hi or (ci and (lo <= ord(ch.upper()) <= hi or lo <= ord(ch.lower()) <= hi)):
+                    hit = True
+            elif o == sre_c.CATEGORY:
+                if cat(a, ch):
+                    hit = True
+        return hit != neg
+
+    def m_seq(items, idx, pos, k):
+        budget[0] -= 1
+        if budget[0] < 0:
+            return True     # give up: viable (never a false alarm)
+        if pos >= n:
+            return True     # input exhausted inside the pattern -> viable
+        if idx == len(items):
+            return k(pos)
+        op, av = items[idx]
+        nxt = lambda p: m_seq(items, idx + 1, p, k)
+        if op == sre_c.LITERAL:
+            c = chr(av)
+            return (c.lower() if ci else c) == text[pos] and nxt(pos + 1)
+        if op == sre_c.NOT_LITERAL:
+            c = chr(av)
+            return (c.lower() if ci else c) != text[pos] and nxt(pos + 1)
+        if op == sre_c.ANY:
+            return text[pos] != "\n" and nxt(pos + 1)
+        if op == sre_c.IN:
+            return in_set(av, text[pos]) and nxt(pos + 1)
+        if op == sre_c.CATEGORY:
+            return cat(av, text[pos]) and nxt(pos + 1)
+        if op == sre_c.AT:
+            name = str(av)
+            if "BEGINNING" in name:
+                return pos == 0 and nxt(pos)
+            if "END" in name:
+                return False if pos < n else nxt(pos)
+            if "BOUNDARY" in name:
+                a = pos > 0 and (text[pos - 1].isalnum() or text[pos - 1] == "_")
+                b = pos < n and (text[pos].isalnum() or text[pos] == "_")
+                isb = a != b
+                if "NON" in name:
+                    isb = not isb
+                return isb and nxt(pos)
+            return nxt(pos)
+        if op == sre_c.SUBPATTERN:
+            return m_seq(list(av[-1]), 0, pos, nxt)
+        if op == sre_c.BRANCH:
+            return any(m_seq(list(alt), 0, pos, nxt) for alt in av[1])
+        if op in (sre_c.MAX_REPEAT, sre_c.MIN_REPEAT):
+            lo, hi, sub = av
+            sub = list(sub)
+
+            def rep(count, p):
+                if p >= n:
+                    return True
+                if count >= lo and nxt(p):
+                    return True
+                if count < hi and count < n + 2:
+                    return m_seq(sub, 0, p, lambda q: q > p and rep(count + 1, q) or (q == p and count + 1 >= lo and nxt(q)))
+                return False
+            return rep(0, pos)
+        if op in (sre_c.ASSERT, sre_c.ASSERT_NOT, sre_c.GROUPREF, sre_c.GROUPREF_EXISTS):
+            return nxt(pos) if op in (sre_c.ASSERT, sre_c.ASSERT_NOT) else True
+        return True   # unknown construct: viable
+    return m_seq(list(tree), 0, 0, lambda p: True)   # re.match does not anchor at the end
